@@ -64,31 +64,50 @@ pub assume_specification<I: core::slice::SliceIndex<str>>[<str as core::ops::Ind
     ensures i.index_postcondition(s, r);
 
 // ======================================================================================
-// suffix(s, p): the characters of s from position p on.  Kept opaque in the parser's proof so
-// that the solver never chains subrange-of-subrange facts (profile: 58% of all instantiations).
+// at(r, s, p): "r is what is left of s from position p on".  Opaque, and the lemmas below are
+// triggered on terms the parser itself creates (the remaining characters after an actual
+// `next()`), so the solver walks the call sequence once instead of exploring every suffix
+// (a first version with a `suffix(s, p)` trigger looped: 740 000 instantiations, 75 % of all).
 #[verifier::opaque]
-spec fn suffix(s: Seq<char>, p: int) -> Seq<char> {
-    s.subrange(p, s.len() as int)
+spec fn at(r: Seq<char>, s: Seq<char>, p: int) -> bool {
+    0 <= p <= s.len() && r == s.subrange(p, s.len() as int)
 }
 
-proof fn lemma_suffix_def(s: Seq<char>, p: int)
+proof fn lemma_at_intro(s: Seq<char>, p: int)
     requires 0 <= p <= s.len(),
-    ensures suffix(s, p) == s.subrange(p, s.len() as int), suffix(s, 0) == s,
+    ensures at(s.subrange(p, s.len() as int), s, p), at(s, s, 0),
 {
-    reveal(suffix);
+    reveal(at);
     assert(s.subrange(0, s.len() as int) =~= s);
 }
 
-broadcast proof fn lemma_suffix_step(s: Seq<char>, p: int)
-    requires 0 <= p <= s.len(),
-    ensures
-        (#[trigger] suffix(s, p)).len() == s.len() - p,
-        p < s.len() ==> suffix(s, p)[0] == s[p] && suffix(s, p).drop_first() == suffix(s, p + 1),
+proof fn lemma_at_def(r: Seq<char>, s: Seq<char>, p: int)
+    requires at(r, s, p),
+    ensures 0 <= p <= s.len(), r == s.subrange(p, s.len() as int),
 {
-    reveal(suffix);
-    if p < s.len() {
-        assert(s.subrange(p, s.len() as int).drop_first() =~= s.subrange(p + 1, s.len() as int));
-    }
+    reveal(at);
+}
+
+broadcast proof fn lemma_at_len(r: Seq<char>, s: Seq<char>, p: int)
+    requires #[trigger] at(r, s, p),
+    ensures 0 <= p <= s.len(), r.len() == s.len() - p,
+{
+    reveal(at);
+}
+
+broadcast proof fn lemma_at_head(r: Seq<char>, s: Seq<char>, p: int)
+    requires at(r, s, p), p < s.len(),
+    ensures #![trigger at(r, s, p), r[0]] r[0] == s[p],
+{
+    reveal(at);
+}
+
+broadcast proof fn lemma_at_next(r: Seq<char>, s: Seq<char>, p: int)
+    requires at(r, s, p), p < s.len(),
+    ensures #![trigger at(r, s, p), r.drop_first()] at(r.drop_first(), s, p + 1),
+{
+    reveal(at);
+    assert(s.subrange(p, s.len() as int).drop_first() =~= s.subrange(p + 1, s.len() as int));
 }
 
 spec fn view_date(d: Option<Date>) -> Option<(int, int, int)> {
@@ -384,14 +403,14 @@ proof fn lemma_fraction(s: Seq<char>, p: int, w: Seq<char>, wb: Seq<u8>, end: in
 
 //@ contract digit ret=r
     ensures
-        forall|s: Seq<char>, p: int| #![trigger suffix(s, p)] rem(old(chars)) == suffix(s, p) && 0 <= p <= s.len() ==>
+        forall|s: Seq<char>, p: int| #[trigger] at(rem(old(chars)), s, p) ==>
             match r {
-                Ok(v) => p < s.len() && is_dig(s[p]) && v as int == dv(s[p]) && v <= 9 && rem(final(chars)) == suffix(s, p + 1),
+                Ok(v) => p < s.len() && is_dig(s[p]) && v as int == dv(s[p]) && v <= 9 && at(rem(final(chars)), s, p + 1),
                 Err(_) => p == s.len() || !is_dig(s[p]),
             },
 
 //@ proof digit before 0 /match chars\.next\(\) \{/
-    proof { broadcast use lemma_suffix_step; }
+    proof { broadcast use lemma_at_len, lemma_at_head, lemma_at_next; }
 
 //@ contract Datetime::from_str ret=r
     ensures
@@ -403,8 +422,8 @@ proof fn lemma_fraction(s: Seq<char>, p: int, w: Seq<char>, wb: Seq<u8>, end: in
 //@ proof Datetime::from_str before 0 /if date\.len\(\) < 3 \{/
         let ghost s = date@;
         proof {
-            broadcast use lemma_suffix_step;
-            lemma_suffix_def(s, 0);
+            broadcast use lemma_at_len, lemma_at_head, lemma_at_next;
+            lemma_at_intro(s, 0);
             lemma_chars_le_bytes(s);
             lemma_dt_cases(s);
             assert(date.spec_bytes() == encode_utf8(s));
@@ -412,15 +431,36 @@ proof fn lemma_fraction(s: Seq<char>, p: int, w: Seq<char>, wb: Seq<u8>, end: in
         }
 
 //@ proof Datetime::from_str after 0 /let mut chars = date\.chars\(\);/
-        proof { assert(rem(&chars) == suffix(s, 0)); }
+        proof { assert(at(rem(&chars), s, 0)); }
 
 //@ proof Datetime::from_str before 0 /let y1 = u16::from/
             proof { assert(sp_time(s, 0) is None); }
 
+//@ proof Datetime::from_str before 0 /let m1 = digit\(&mut chars\)\?;/
+            proof { assert(at(rem(&chars), s, 5)); }
+
+//@ proof Datetime::from_str before 0 /let d1 = digit\(&mut chars\)\?;/
+            proof { assert(at(rem(&chars), s, 8)); }
+
+//@ proof Datetime::from_str before 1 /let m1 = digit\(&mut chars\)\?;/
+            proof { assert(at(rem(&chars), s, p1 + 3)); }
+
+//@ proof Datetime::from_str before 0 /let s1 = digit\(&mut chars\)\?;/
+            proof { assert(at(rem(&chars), s, p1 + 6)); }
+
+//@ proof Datetime::from_str before 0 /let whole = chars\.as_str\(\);/
+                proof { assert(at(rem(&chars), s, p1 + 9)); }
+
+//@ proof Datetime::from_str before 0 /let h1 = digit\(&mut chars\)\? as i16;/
+                proof { assert(at(rem(&chars), s, pt + 1)); }
+
+//@ proof Datetime::from_str before 0 /let m1 = digit\(&mut chars\)\? as i16;/
+                proof { assert(at(rem(&chars), s, pt + 4)); }
+
 //@ proof Datetime::from_str before 0 /let date = Date \{/
             proof {
                 assert(s.len() >= 10);
-                assert(rem(&chars) == suffix(s, 10));
+                assert(at(rem(&chars), s, 10));
                 assert(two_ok(s, 0) && two_ok(s, 2) && s[4] == '-' && two_ok(s, 5) && s[7] == '-' && two_ok(s, 8));
                 assert(y1 == dv(s[0]) && y2 == dv(s[1]) && y3 == dv(s[2]) && y4 == dv(s[3]));
                 assert(m1 == dv(s[5]) && m2 == dv(s[6]) && d1 == dv(s[8]) && d2 == dv(s[9]));
@@ -434,7 +474,7 @@ proof fn lemma_fraction(s: Seq<char>, p: int, w: Seq<char>, wb: Seq<u8>, end: in
 //@ proof Datetime::from_str before 0 /let next = chars\.clone\(\)\.next\(\);/
         let ghost p0: int = if full_date.is_some() { 10 } else { 0 };
         proof {
-            assert(rem(&chars) == suffix(s, p0));
+            assert(at(rem(&chars), s, p0));
             if full_date is None {
                 assert(s.len() > 2 && s[2] == ':');
                 assert(sp_date(s, 0) is None);
@@ -446,11 +486,11 @@ proof fn lemma_fraction(s: Seq<char>, p: int, w: Seq<char>, wb: Seq<u8>, end: in
         let ghost p1: int = if full_date.is_some() { 11 } else { 0 };
         proof {
             if partial_time {
-                assert(rem(&chars) == suffix(s, p1));
+                assert(at(rem(&chars), s, p1));
                 assert(full_date is Some ==> s.len() > 10 && time_delim(s[10]));
             } else {
                 assert(full_date is Some);
-                assert(rem(&chars) == suffix(s, 10));
+                assert(at(rem(&chars), s, 10));
                 assert(s.len() == 10 || !time_delim(s[10]));
             }
         }
@@ -458,7 +498,7 @@ proof fn lemma_fraction(s: Seq<char>, p: int, w: Seq<char>, wb: Seq<u8>, end: in
 //@ proof Datetime::from_str before 0 /let mut nanosecond = 0;/
             proof {
                 assert(s.len() >= p1 + 8);
-                assert(rem(&chars) == suffix(s, p1 + 8));
+                assert(at(rem(&chars), s, p1 + 8));
                 assert(two_ok(s, p1) && s[p1 + 2] == ':' && two_ok(s, p1 + 3) && s[p1 + 5] == ':' && two_ok(s, p1 + 6));
                 assert(h1 == dv(s[p1]) && h2 == dv(s[p1 + 1]) && m1 == dv(s[p1 + 3]) && m2 == dv(s[p1 + 4]));
                 assert(s1 == dv(s[p1 + 6]) && s2 == dv(s[p1 + 7]));
@@ -469,7 +509,7 @@ proof fn lemma_fraction(s: Seq<char>, p: int, w: Seq<char>, wb: Seq<u8>, end: in
                 let ghost wb = whole.spec_bytes();
                 proof {
                     assert(s.len() > p1 + 8 && s[p1 + 8] == '.');
-                    lemma_suffix_def(s, p1 + 9);
+                    lemma_at_def(w, s, p1 + 9);
                     assert(w == s.subrange(p1 + 9, s.len() as int));
                     assert(wb == encode_utf8(w));
                     lemma_str_bytes_valid(whole);
@@ -521,14 +561,14 @@ proof fn lemma_fraction(s: Seq<char>, p: int, w: Seq<char>, wb: Seq<u8>, end: in
 //@ proof Datetime::from_str after 0 /chars = whole\[end\.\.\]\.chars\(\);/
                 proof {
                     lemma_encode_injective(rem(&chars), s.subrange(p1 + 9 + end, s.len() as int));
-                    lemma_suffix_def(s, p1 + 9 + end);
-                    assert(rem(&chars) == suffix(s, p1 + 9 + end));
+                    lemma_at_intro(s, p1 + 9 + end);
+                    assert(at(rem(&chars), s, p1 + 9 + end));
                 }
 
 //@ proof Datetime::from_str before 0 /let time = Time \{/
             let ghost pe: int = s.len() - rem(&chars).len();
             proof {
-                assert(rem(&chars) == suffix(s, pe));
+                assert(at(rem(&chars), s, pe));
             }
 
 //@ proof Datetime::from_str before 0 /Some\(time\)/
@@ -539,7 +579,7 @@ proof fn lemma_fraction(s: Seq<char>, p: int, w: Seq<char>, wb: Seq<u8>, end: in
 //@ proof Datetime::from_str before 0 /let offset = if /
         let ghost pt: int = s.len() - rem(&chars).len();
         proof {
-            assert(rem(&chars) == suffix(s, pt));
+            assert(at(rem(&chars), s, pt));
             assert(time is Some ==> sp_time(s, p1) == Some((view_time(time)->0, pt)));
             assert(time is None ==> full_date is Some && pt == 10 && (s.len() == 10 || !time_delim(s[10])));
             if full_date is Some && time is Some {
@@ -553,7 +593,7 @@ proof fn lemma_fraction(s: Seq<char>, p: int, w: Seq<char>, wb: Seq<u8>, end: in
 //@ proof Datetime::from_str before 0 /let hours = h1 \* 10 \+ h2;/
                 proof {
                     assert(s.len() >= pt + 6);
-                    assert(rem(&chars) == suffix(s, pt + 6));
+                    assert(at(rem(&chars), s, pt + 6));
                     assert(two_ok(s, pt + 1) && s[pt + 3] == ':' && two_ok(s, pt + 4));
                     assert(h1 == dv(s[pt + 1]) && h2 == dv(s[pt + 2]) && m1 == dv(s[pt + 4]) && m2 == dv(s[pt + 5]));
                     assert(sign == 1 || sign == -1);
@@ -579,7 +619,7 @@ proof fn lemma_fraction(s: Seq<char>, p: int, w: Seq<char>, wb: Seq<u8>, end: in
 //@ proof Datetime::from_str before 0 /if chars\.next\(\)\.is_some\(\) \{/
         let ghost pf: int = s.len() - rem(&chars).len();
         proof {
-            assert(rem(&chars) == suffix(s, pf));
+            assert(at(rem(&chars), s, pf));
             assert(offset is Some ==> sp_offset(s, pt) == Some((view_offset(offset)->0, pf)));
             assert(offset is None ==> pf == pt);
             // the verdict of the grammar, case by case, before the end-of-input test
@@ -603,6 +643,7 @@ proof fn lemma_fraction(s: Seq<char>, p: int, w: Seq<char>, wb: Seq<u8>, end: in
         }
 
 //@ attr Datetime::from_str
+#[verifier::spinoff_prover]
 #[verifier::rlimit(300)]
 
 //@ main
